@@ -9,7 +9,7 @@ cd $WT || exit 2
 git diff -- ractor/src ractor_cluster/src ractor_cluster_derive/src > $OUT/patch.diff
 cp $WT/$CRATE/tests/$DEMO.rs $OUT/ 2>/dev/null
 cp $WT/NOTES.md $OUT/NOTES.md 2>/dev/null
-FEAT="--features cluster"; [ "$CRATE" != "ractor" ] && FEAT=""
+FEAT="--features cluster"; [ "$CRATE" != "ractor" ] && FEAT=""; [ -n "$FEAT_OVERRIDE" ] && FEAT="$FEAT_OVERRIDE"
 {
 echo "== build with change"; cargo build --offline -p $CRATE $FEAT 2>&1 | tail -2
 echo "== lib tests with change"; timeout 1500 cargo test --offline -p $CRATE $FEAT --lib 2>&1 | grep -E "^test result|FAILED|failed" | head -5
